@@ -202,6 +202,10 @@ def check_snapshot(ctx, pid):
         if pid not in props_of(fid):
             continue
         f = live.get(fid)
+        if f is None:
+            same = [g for lid, g in live.items() if lid.split("|")[:3] == fid.split("|")[:3] and lid not in snap]
+            if len(same) == 1:
+                f = same[0]          # the helper was moved to another module of the same crate
         short = "%s::%s" % (fid.split("|")[1] or fid.split("|")[3].split("::")[-1], fid.split("|")[2])
         if f is None:
             # renamed / moved helper: the same path table under another name on the same type (or free function in the same crate) is
@@ -211,13 +215,21 @@ def check_snapshot(ctx, pid):
                 n += 1
                 ctx.inst(pid + ".S", "helper/" + short, True, "the complete path table of %s equals the reviewed snapshot" % short, "ok (now named %s)" % ren.name, ren.loc(ren.raw["span"]))
                 continue
-            ctx.missing(pid + ".S", "helper " + short)
+            # the helper no longer exists under any name: it was inlined into its callers or dropped.  The snapshot is a backstop for code
+            # the rules know by name only; with the helper gone its content is part of the callers, which the property's own rules (and the
+            # callers' pins, compared modulo helper boundaries) decide.  Listed as undecided, never silently skipped.
+            ctx.inst(pid + ".S", "helper/" + short, None, "the complete path table of %s equals the reviewed snapshot" % short, "helper no longer exists (inlined into its callers?)", None)
             continue
         try:
             got = leaf_sig(prog, f)
         except Exception as e:
             got = ["<not a small loop-free helper any more: %s>" % e]
         n += 1
+        ok = got == want
         diff = [x for x in got if x not in want][:2] + ["(missing) " + x for x in want if x not in got][:2]
-        ctx.inst(pid + ".S", "helper/" + short, got == want, "the complete path table of %s equals the reviewed snapshot" % short, diff or "ok", f.loc(f.raw["span"]))
+        if not ok:
+            from .kernels import same_modulo_helper_boundaries
+            if same_modulo_helper_boundaries(prog, f, "S|" + fid):
+                ok, diff = True, "ok (equal to the reviewed helper modulo helper boundaries: a callee was extracted / inlined / merged)"
+        ctx.inst(pid + ".S", "helper/" + short, ok, "the complete path table of %s equals the reviewed snapshot" % short, diff or "ok", f.loc(f.raw["span"]))
     return n
